@@ -9,7 +9,7 @@
 From Coq Require Import Reals ZArith List.
 From PyLib Require Import PyVal PyBuiltins Ideal.
 From Gen Require Import M_base M_Angle M_CurveFitting.
-From Proofs.C17 Require Import C17_tac C17_sums C17_fits C17_general C17_corr C17_main.
+From Proofs.C17 Require Import C17_tac C17_sums C17_fits C17_general C17_corr C17_main C17_ctor.
 Import ListNotations.
 Open Scope R_scope.
 
@@ -139,6 +139,27 @@ Theorem C17_correlation : forall xs ys, length xs = length ys -> 0 < var_x xs ->
     /\ CurveFitting_correlation_coeff Rops (cf_of xs (map Ropp ys)) = VFloat (- r).
 Proof. exact correlation_of_data'. Qed.
 
+(* input forms (two points, symbolic real entries): separate lists (a longer one truncated),
+   tuples, interleaved scalars (an odd trailing value dropped) and the copy constructor all
+   store the same object; a single pair is refused *)
+Theorem C17_input_forms : forall x0 x1 y0 y1 z,
+  CurveFitting___init__ Rops blank (VTuple [VList [VFloat x0; VFloat x1]; VList [VFloat y0; VFloat y1; VFloat z]])
+    = cf_of [x0; x1] [y0; y1]
+  /\ CurveFitting___init__ Rops blank (VTuple [VTuple [VFloat x0; VFloat x1]; VTuple [VFloat y0; VFloat y1]])
+    = cf_of [x0; x1] [y0; y1]
+  /\ CurveFitting___init__ Rops blank (VTuple [VFloat x0; VFloat y0; VFloat x1; VFloat y1])
+    = cf_of [x0; x1] [y0; y1]
+  /\ CurveFitting___init__ Rops blank (VTuple [VFloat x0; VFloat y0; VFloat x1; VFloat y1; VFloat z])
+    = cf_of [x0; x1] [y0; y1]
+  /\ CurveFitting___init__ Rops blank (VTuple [cf_of [1; 2] [3; 5]]) = cf_of [1; 2] [3; 5]
+  /\ CurveFitting___init__ Rops blank (VTuple [VList [VFloat x0]; VList [VFloat y0]]) = VErr ValueError.
+Proof.
+  intros x0 x1 y0 y1 z.
+  exact (conj (ctor_lists_truncated x0 x1 y0 y1 z) (conj (ctor_tuples2 x0 x1 y0 y1)
+        (conj (ctor_interleaved2 x0 x1 y0 y1) (conj (ctor_interleaved2_odd x0 x1 y0 y1 z)
+        (conj ctor_copy (ctor_one_pair x0 y0)))))).
+Qed.
+
 Redirect "C17_sums.assumptions" Print Assumptions C17_sums.
 Redirect "C17_linear_normal_equations.assumptions" Print Assumptions C17_linear_normal_equations.
 Redirect "C17_quadratic_normal_equations.assumptions" Print Assumptions C17_quadratic_normal_equations.
@@ -147,3 +168,4 @@ Redirect "C17_general_eq_quadratic.assumptions" Print Assumptions C17_general_eq
 Redirect "C17_general_eq_linear.assumptions" Print Assumptions C17_general_eq_linear.
 Redirect "C17_degenerate_refused.assumptions" Print Assumptions C17_degenerate_refused.
 Redirect "C17_correlation.assumptions" Print Assumptions C17_correlation.
+Redirect "C17_input_forms.assumptions" Print Assumptions C17_input_forms.
